@@ -108,3 +108,16 @@ func (round *base) getSSID() ([]byte, error) {
 
 	return ssid, nil
 }
+
+// duplicateCulprits attributes a value that two parties (indices j and k) both sent: a party knows its own
+// value is its own, so the other sender is the culprit; between two other parties it cannot tell who copied whom.
+func (round *base) duplicateCulprits(j, k int) []*tss.PartyID {
+	i := round.PartyID().Index
+	switch {
+	case j == i && k != i:
+		return []*tss.PartyID{round.Parties().IDs()[k]}
+	case k == i && j != i:
+		return []*tss.PartyID{round.Parties().IDs()[j]}
+	}
+	return nil
+}
